@@ -157,7 +157,7 @@ structure DState where
   lastCont : Option (List Nat) := some []   -- the container the implementation showed on the previous line
   lastWs : Option (List String × List String × String) := none   -- caller classes, flusher classes, cmd of the previous line
 
-def fuel : Nat := 200000
+def fuel : Nat := 3000000
 
 /-- end every callback that is running in `s` (the harness releases all gated callbacks at a quiescent point) -/
 def releaseAll (d : DCfg) (s : St) : St :=
